@@ -17,7 +17,7 @@ equations that tie the mutual evaluator to these functions.
 
 Proved: lookup_nearest, assign_nearest_or_local, let_local, inner_not_visible_outside, call_fresh_locals,
 closure_sees_definition_scope, call_does_not_write_enclosing_frames, args_missing_default_extra_ignored,
-prims_by_value_containers_by_ref, read_after_write (cell) and read_after_write_path (setValue / getValue), len_add_del_model, add_insert_concat_model,
+prims_by_value_containers_by_ref, read_after_write (cell) and read_after_write_path (setValue / getValue), len_add_del_model, 
 new_has_all_template_props (transitive), own_property_wins, method_this, init_once_with_args,
 init_once_with_args_and_supers, init_reads_super, addSuperClasses_cycle.  Hypotheses are listed with each theorem.
 -/
@@ -381,44 +381,93 @@ theorem runBuiltin_uses (f sc : Nat) (node : Ecal.Parse.Node) (args : List Val) 
         withFreshIs (runFunction f ivs id rest)) args := by
   refine ⟨?_, ?_, ?_, ?_, ?_⟩ <;> (unfold runBuiltin; rfl)
 
-/-- len / add / del against the list and map model (`St.elems st r l` = the elements of the slice `.list r l`,
-    `St.entries st r` = the entries of map `r`):
-    * `len` = length of the list / number of entries of the map; anything else, or no argument, is an error;
-    * `add(l, v)` = Go's `append`: old elements followed by `v`; in the SAME backing array when the capacity
-      suffices (aliases no longer than the old list keep their elements, capacity unchanged), otherwise in a NEW
-      array (no alias of the old list changes); no other array is touched; first argument not a list, or fewer
-      than two arguments: error;
-    * `del(l, i)` with `0 ≤ i < len`: the old elements without position `i`, shifted inside the same array;
-      outside that range: error; `del(m, k)` filters out the entry under the STRING form of `k`. -/
-theorem len_add_del_model :
+/-! ### the list / finite-map yardstick and the builtins
+
+`Spec`: lists are values `List Val`; `add` / `del` / `concat` RETURN a list and change nothing else; maps are finite
+maps.  After the repairs fixes/C05-add-del-new-list.patch and fixes/C05-del-number-key.patch the builtins refine
+`Spec` without side conditions (`len_add_del_concat_model`); `unrepaired_add_del_deviate` keeps the witnesses of what
+the code did before (Go slice aliasing; string-form delete). -/
+namespace Spec
+def len (l : List Val) : Nat := l.length
+def add (l : List Val) (v : Val) : List Val := l ++ [v]
+def insert (l : List Val) (v : Val) (i : Nat) : List Val := l.take i ++ [v] ++ l.drop i
+def del (l : List Val) (i : Nat) : List Val := l.eraseIdx i
+def concat (ls : List (List Val)) : List Val := ls.flatten
+def delKey (m : List (Val × Val)) (k : Val) : List (Val × Val) := m.filter fun p => !(keyEq p.1 k)
+end Spec
+
+/-- len / add / del / concat against `Spec` (`St.elems st r l` = the elements of the list value `.list r l`,
+    `St.entries st r` = the entries of map `r`; `NewList st st' res xs` = the result is a NEW cell holding exactly
+    `xs` and NO existing backing array changed, so neither the argument nor any other list value):
+    * `len` = `Spec.len` / number of entries; anything else, or no argument: error;
+    * `add(l, v)` = `Spec.add`, `add(l, v, i)` (0 ≤ i ≤ len, else error) = `Spec.insert`, `del(l, i)` (0 ≤ i < len,
+      else error) = `Spec.del`, each as a `NewList`; first argument not a list / too few arguments: error;
+    * `del(m, k)` = `Spec.delKey` under `delKeyOf` (an existing number key when the string form of `k` is a number,
+      else the string form), after which the key is gone;
+    * `concat(l1, …)` (≥ 2 lists, else error) = `Spec.concat`, in a new array: no existing array changes. -/
+theorem len_add_del_concat_model :
     (∀ r l rest, lenB (.list r l :: rest) = pure (.num (Float.ofNat l))) ∧
     (∀ r rest st, runM (lenB (.map r :: rest)) st = (.ok (.num (Float.ofNat (st.entries r).length)), st)) ∧
     (lenB [] = throw (plain "Need a list or a map as first parameter")) ∧
-    (∀ r l v, addB [.list r l, v] = appendVals r l [v]) ∧
-    (∀ r l vs st st' res, r < st.lists.size → l ≤ (st.backing r).length →
-      runM (appendVals r l vs) st = (.ok res, st') →
-      ∃ r', res = .list r' (l + vs.length) ∧ st'.elems r' (l + vs.length) = st.elems r l ++ vs ∧
-        (∀ q, q ≠ r' → st'.backing q = st.backing q) ∧
-        ((r' = r ∧ (st'.backing r).length = (st.backing r).length ∧ ∀ l2, l2 ≤ l → st'.elems r l2 = st.elems r l2) ∨
-         (r' = st.lists.size ∧ ∀ l2, st'.elems r l2 = st.elems r l2))) ∧
+    (∀ r l v, addB [.list r l, v] = appendNew r l v) ∧
+    (∀ r l v st, ∃ st' res, runM (appendNew r l v) st = (.ok res, st') ∧ NewList st st' res (Spec.add (st.elems r l) v)) ∧
+    (∀ r l v x i st, runM (goInt x) st = (.ok i, st) → isIntegral x = true →
+      runM (addB [.list r l, v, .num x]) st =
+        if i < 0 || i > (l : Int) then (.error (plain "Out of bounds access to list"), st)
+        else runM (insertAt r l v i.toNat) st) ∧
+    (∀ r l v i st, ∃ st' res, runM (insertAt r l v i) st = (.ok res, st') ∧ NewList st st' res (Spec.insert (st.elems r l) v i)) ∧
     (∀ a v rest, (∀ r l, a ≠ .list r l) → addB (a :: v :: rest) = throw (plain "Parameter 1 should be a list")) ∧
-    (∀ r l i st, r < st.lists.size → l ≤ (st.backing r).length → i < l →
-      ∃ st', runM (delAt r l i) st = (.ok (.list r (l - 1)), st') ∧ st'.elems r (l - 1) = (st.elems r l).eraseIdx i ∧
-        st'.backing r = (st.backing r).take i ++ ((st.backing r).take l).drop (i + 1) ++ (st.backing r).drop (l - 1) ∧
-        ∀ q, q ≠ r → st'.backing q = st.backing q) ∧
     (∀ r l x i st, runM (goInt x) st = (.ok i, st) →
       runM (delB [.list r l, .num x]) st =
         if i < 0 || i ≥ (l : Int) then (.error (plain "Out of bounds access to list"), st) else runM (delAt r l i.toNat) st) ∧
+    (∀ r l i st, ∃ st' res, runM (delAt r l i) st = (.ok res, st') ∧ NewList st st' res (Spec.del (st.elems r l) i)) ∧
     (∀ r k key st, runM (sprint k) st = (.ok key, st) →
       runM (delB [.map r, k]) st =
-        (.ok (.map r), { st with maps := st.maps.setIfInBounds r ((st.entries r).filter fun p => !(keyEq p.1 (.str key))) })) :=
-  ⟨len_list, len_map, len_noargs, add_append,
-   fun r l vs st st' res hr hl h => append_model r l vs st st' res hr hl h,
-   add_noList, delAt_model, del_list_run, del_map_run⟩
+        (.ok (.map r), { st with maps := st.maps.setIfInBounds r (Spec.delKey (st.entries r) (delKeyOf (st.entries r) key)) })) ∧
+    (∀ kvs dk, mapLookup (Spec.delKey kvs dk) dk = none) ∧
+    (∀ args st st' res, (∀ a ∈ args, ∃ r l, a = Val.list r l ∧ r < st.lists.size) →
+      runM (concatB args) st = (.ok res, st') →
+      ∃ r' l', res = .list r' l' ∧ st.lists.size ≤ r' ∧ st'.elems r' l' = Spec.concat (args.map st.elemsOf) ∧
+        ∀ q, q < st.lists.size → st'.backing q = st.backing q) ∧
+    (∀ args st, args.length < 2 → runM (concatB args) st = (.error (plain "Need at least two lists as parameters"), st)) ∧
+    (∀ a rest cur, (∀ r l, a ≠ Val.list r l) → concatGo (a :: rest) cur = throw (plain "Parameter 1 should be a list")) := by
+  refine ⟨len_list, len_map, len_noargs, add_append, ?_, add_insert_run, ?_, add_noList, del_list_run, ?_, del_map_run,
+    mapLookup_filter_removed, ?_, concat_fewArgs, concat_notList⟩
+  · intro r l v st
+    obtain ⟨st', h1, h2⟩ := appendNew_model r l v st
+    exact ⟨st', _, h1, h2⟩
+  · intro r l v i st
+    obtain ⟨st', h1, h2⟩ := insertAt_model r l i v st
+    exact ⟨st', _, h1, h2⟩
+  · intro r l i st
+    obtain ⟨st', h1, h2⟩ := delAt_model r l i st
+    exact ⟨st', _, h1, h2⟩
+  · intro args st st' res ha h
+    obtain ⟨r', l', e1, e2, e3, e4⟩ := concat_model args st st' res ha h
+    exact ⟨r', l', e1, e2, by rw [e3]; simp [Spec.concat, List.flatMap], e4⟩
 
-/-- non-vacuity of the aliasing cases: appending to a full slice moves to a new array, to a slice with room stays -/
-example : ∃ st', runM (appendVals 1 1 [.null]) { lists := #[[], [.null]] } = (.ok (.list 2 2), st') := ⟨_, rfl⟩
-example : ∃ st', runM (appendVals 1 1 [.null]) { lists := #[[], [.null, .bool true]] } = (.ok (.list 1 2), st') := ⟨_, rfl⟩
+/-- non-vacuity: `add` / `del` / `concat` on concrete lists -/
+example : ∃ st', runM (addB [.list 1 2, .bool true]) { lists := #[[], [.null, .null]] } = (.ok (.list 2 3), st') := ⟨_, rfl⟩
+example : ∃ st', runM (delAt 1 2 0) { lists := #[[], [.null, .null]] } = (.ok (.list 2 1), st') := ⟨_, rfl⟩
+example : ∃ r st', runM (concatB [.list 1 1, .list 1 1]) { lists := #[[], [.null]] } = (.ok (.list r 2), st') := ⟨_, _, rfl⟩
+
+/-- What the code did BEFORE the repairs (`appendVals` = Go's append, still used by list literals and concat;
+    `delAtOld`, `insertAtOld`, `delKeyOld` = the old builtins; `a` = the slice `.list 1 3` over an array of capacity 4
+    holding 1,2,3): `b := add(a, 4); c := add(a, 5)` rewrote `b` to [1,2,3,5]; `add(a, 9, 0)` turned `a` itself into
+    [9,1,2]; `del(a, 0)` turned `a` itself into [2,3,3]; `del({1: x}, 1)` removed nothing (it deleted the STRING key "1").
+    Negative witnesses: a check run against a tree with one of the fixes reverted must report these inputs (corpus). -/
+theorem unrepaired_add_del_deviate :
+    let st : St := { lists := #[[], [.num 1, .num 2, .num 3, .null]] }
+    (∃ s1 s2, runM (appendVals 1 3 [.num 4]) st = (.ok (.list 1 4), s1) ∧ runM (appendVals 1 3 [.num 5]) s1 = (.ok (.list 1 4), s2) ∧
+      s1.elems 1 4 = [.num 1, .num 2, .num 3, .num 4] ∧ s2.elems 1 4 = [.num 1, .num 2, .num 3, .num 5]) ∧
+    (∃ s1, runM (insertAtOld 1 3 (.num 9) 0) st = (.ok (.list 1 4), s1) ∧ s1.elems 1 3 = [.num 9, .num 1, .num 2]) ∧
+    (∃ s1, runM (delAtOld 1 3 0) st = (.ok (.list 1 2), s1) ∧ s1.elems 1 3 = [.num 2, .num 3, .num 3]) ∧
+    (∀ (x : Float) (v : Val), Spec.delKey [(.num x, v)] (delKeyOld [49]) = [(.num x, v)]) ∧
+    -- … while the repaired builtins leave `a` alone:
+    (∃ s1 s2, runM (appendNew 1 3 (.num 4)) st = (.ok (.list 2 4), s1) ∧ runM (appendNew 1 3 (.num 5)) s1 = (.ok (.list 3 4), s2) ∧
+      s2.elems 2 4 = [.num 1, .num 2, .num 3, .num 4] ∧ s2.elems 1 3 = [.num 1, .num 2, .num 3]) ∧
+    (∃ s1, runM (delAt 1 3 0) st = (.ok (.list 2 2), s1) ∧ s1.elems 1 3 = [.num 1, .num 2, .num 3] ∧ s1.elems 2 2 = [.num 2, .num 3]) :=
+  ⟨⟨_, _, rfl, rfl, rfl, rfl⟩, ⟨_, rfl, rfl⟩, ⟨_, rfl, rfl⟩, fun _ _ => rfl, ⟨_, _, rfl, rfl, rfl, rfl⟩, ⟨_, rfl, rfl, rfl⟩⟩
 
 /-- `addSuperClasses` (Go: addSuperClassesOnPath): a template already on the current path — it is its own super
     template, directly or through others — adds nothing and sets the error variable; otherwise FIRST the super
@@ -491,94 +540,6 @@ theorem init_once_with_args (runInit : Nat → List Val → M Val) (tr id : Nat)
 example : ∃ r s1, runM (addSuperClasses 200 1 [] 0)
     { maps := #[[(.str initName, .func 0)], []], funcs := #[⟨"", default, 0, none, none⟩] } = (.ok r, s1) ∧
     mapLookup (s1.entries 1) (.str initName) = some (.func 1) := ⟨_, _, rfl, rfl⟩
-
-/-- add(l, v, i) and concat against the slice model:
-    * `add(l, v, i)`: index outside `0 ≤ i ≤ len` is an error; otherwise the old elements with `v` inserted before
-      position `i` — in the SAME backing array when the capacity suffices (the tail from `i` is shifted in place:
-      only aliases of length ≤ `i` keep their elements; capacity unchanged), else in a NEW array (the old array and
-      all its aliases unchanged); no other array changes;
-    * `concat(l1, …)`: fewer than two arguments or a non-list argument is an error; otherwise the elements of all
-      arguments in order, in a NEW array (index ≥ the old store size): no existing array — no argument, no alias —
-      changes. -/
-theorem add_insert_concat_model :
-    (∀ r l v x i st, runM (goInt x) st = (.ok i, st) → isIntegral x = true →
-      runM (addB [.list r l, v, .num x]) st =
-        if i < 0 || i > (l : Int) then (.error (plain "Out of bounds access to list"), st)
-        else runM (insertAt r l v i.toNat) st) ∧
-    (∀ r l i v st st' res, r < st.lists.size → l ≤ (st.backing r).length → i ≤ l →
-      runM (insertAt r l v i) st = (.ok res, st') →
-      ∃ r', res = .list r' (l + 1) ∧
-        st'.elems r' (l + 1) = (st.elems r l).take i ++ [v] ++ (st.elems r l).drop i ∧
-        (∀ q, q ≠ r' → st'.backing q = st.backing q) ∧
-        ((r' = r ∧ (st'.backing r).length = (st.backing r).length ∧ ∀ l2, l2 ≤ i → st'.elems r l2 = st.elems r l2) ∨
-         (r' = st.lists.size ∧ ∀ l2, st'.elems r l2 = st.elems r l2))) ∧
-    (∀ args st st' res, (∀ a ∈ args, ∃ r l, a = Val.list r l ∧ r < st.lists.size) →
-      runM (concatB args) st = (.ok res, st') →
-      ∃ r' l', res = .list r' l' ∧ st.lists.size ≤ r' ∧ st'.elems r' l' = args.flatMap st.elemsOf ∧
-        ∀ q, q < st.lists.size → st'.backing q = st.backing q) ∧
-    (∀ args st, args.length < 2 → runM (concatB args) st = (.error (plain "Need at least two lists as parameters"), st)) ∧
-    (∀ a rest cur, (∀ r l, a ≠ Val.list r l) → concatGo (a :: rest) cur = throw (plain "Parameter 1 should be a list")) :=
-  ⟨add_insert_run, fun r l i v st st' res hr hl hi h => insertAt_model r l i v st st' res hr hl hi h,
-   concat_model, concat_fewArgs, concat_notList⟩
-
-example : ∃ st', runM (insertAt 1 2 (.bool true) 1) { lists := #[[], [.null, .null]] } = (.ok (.list 2 3), st') := ⟨_, rfl⟩
-example : ∃ r st', runM (concatB [.list 1 1, .list 1 1]) { lists := #[[], [.null]] } = (.ok (.list r 2), st') := ⟨_, _, rfl⟩
-
-/-! ### the list / finite-map yardstick (independent of slices) and where the code leaves it
-
-`Spec`: lists are values `List Val`, `add`/`del`/`concat` RETURN a list and change nothing else; maps are finite maps.
-The code's results refine `Spec` (`builtins_refine_spec`); what the code does to OTHER list values — the argument
-itself, earlier results — is Go slice aliasing and deviates from `Spec` (`add_del_alias_deviation`: witnesses).  The
-correspondence run compares with the code as it is; `fixes/C05-add-del-aliasing.patch` makes add / del copy. -/
-namespace Spec
-def len (l : List Val) : Nat := l.length
-def add (l : List Val) (v : Val) : List Val := l ++ [v]
-def insert (l : List Val) (v : Val) (i : Nat) : List Val := l.take i ++ [v] ++ l.drop i
-def del (l : List Val) (i : Nat) : List Val := l.eraseIdx i
-def concat (ls : List (List Val)) : List Val := ls.flatten
-def delKey (m : List (Val × Val)) (k : Val) : List (Val × Val) := m.filter fun p => !(keyEq p.1 k)
-end Spec
-
-/-- the RESULT of every list builtin is the `Spec` result (for slices with len ≤ capacity, valid indices) -/
-theorem builtins_refine_spec (r l : Nat) (st st' : St) (res : Val) (hr : r < st.lists.size) (hl : l ≤ (st.backing r).length) :
-    (∀ v, runM (appendVals r l [v]) st = (.ok res, st') →
-      ∃ r', res = .list r' (l + 1) ∧ st'.elems r' (l + 1) = Spec.add (st.elems r l) v) ∧
-    (∀ v i, i ≤ l → runM (insertAt r l v i) st = (.ok res, st') →
-      ∃ r', res = .list r' (l + 1) ∧ st'.elems r' (l + 1) = Spec.insert (st.elems r l) v i) ∧
-    (∀ i, i < l → ∃ s2, runM (delAt r l i) st = (.ok (.list r (l - 1)), s2) ∧ s2.elems r (l - 1) = Spec.del (st.elems r l) i) := by
-  refine ⟨?_, ?_, ?_⟩
-  · intro v h
-    obtain ⟨r', e1, e2, _⟩ := append_model r l [v] st st' res hr hl h
-    exact ⟨r', e1, e2⟩
-  · intro v i hi h
-    obtain ⟨r', e1, e2, _⟩ := insertAt_model r l i v st st' res hr hl hi h
-    exact ⟨r', e1, e2⟩
-  · intro i hi
-    obtain ⟨s2, e1, e2, _⟩ := delAt_model r l i st hr hl hi
-    exact ⟨s2, e1, e2⟩
-
-/-- … and a plain append changes no OTHER list value as long as no alias of the backing array is longer than the
-    appended slice ("no alias beyond len") — in particular never when it reallocates -/
-theorem append_refines_when_unaliased (r l : Nat) (v : Val) (st st' : St) (res : Val) (hr : r < st.lists.size)
-    (hl : l ≤ (st.backing r).length) (h : runM (appendVals r l [v]) st = (.ok res, st')) (r2 l2 : Nat)
-    (hal : r2 = r → l2 ≤ l) (hr2 : r2 < st.lists.size) : st'.elems r2 l2 = st.elems r2 l2 := by
-  obtain ⟨r', _, _, hoth, hcase⟩ := append_model r l [v] st st' res hr hl h
-  rcases hcase with ⟨e, _, hk⟩ | ⟨e, hk⟩
-  · by_cases h2 : r2 = r
-    · subst h2; exact hk l2 (hal rfl)
-    · simp only [St.elems, hoth r2 (by rw [e]; exact h2)]
-  · simp only [St.elems, hoth r2 (by rw [e]; exact Nat.ne_of_lt hr2)]
-
-/-- Deviations from `Spec` (the code as it is; `a` = the slice `.list 1 3` over an array of capacity 4 holding 1,2,3):
-    `b := add(a, 4); c := add(a, 5)` rewrites `b` to [1,2,3,5]; `add(a, 9, 0)` turns `a` itself into [9,1,2];
-    `del(a, 0)` turns `a` itself into [2,3,3]. -/
-theorem add_del_alias_deviation :
-    let st : St := { lists := #[[], [.num 1, .num 2, .num 3, .null]] }
-    (∃ s1 s2, runM (appendVals 1 3 [.num 4]) st = (.ok (.list 1 4), s1) ∧ runM (appendVals 1 3 [.num 5]) s1 = (.ok (.list 1 4), s2) ∧
-      s1.elems 1 4 = [.num 1, .num 2, .num 3, .num 4] ∧ s2.elems 1 4 = [.num 1, .num 2, .num 3, .num 5]) ∧
-    (∃ s1, runM (insertAt 1 3 (.num 9) 0) st = (.ok (.list 1 4), s1) ∧ s1.elems 1 3 = [.num 9, .num 1, .num 2]) ∧
-    (∃ s1, runM (delAt 1 3 0) st = (.ok (.list 1 2), s1) ∧ s1.elems 1 3 = [.num 2, .num 3, .num 3]) :=
-  ⟨⟨_, _, rfl, rfl, rfl, rfl⟩, ⟨_, rfl, rfl⟩, ⟨_, rfl, rfl⟩⟩
 
 /-- the loop over the "super" list, in list order: a map element is added to the object by `rec` (its init is
     appended to the collected list, its error replaces the error variable), any other element is skipped -/
